@@ -63,6 +63,13 @@ func c14Plan(tier string, seed uint64) (jobs []rt.Job) {
 				add(kd.k, p, parts, kd.cost*4, true)
 			}
 		}
+		// ... and one part with the scheduler told there are very many / exactly one processor
+		// (nothing here may depend on how many there are)
+		for _, gp := range []int{256, 1} {
+			add(kd.k, int(seed)%parts, parts, kd.cost, false)
+			jobs[len(jobs)-1].ID += fmt.Sprintf("/gomaxprocs=%d", gp)
+			jobs[len(jobs)-1].Args["gomaxprocs"] = gp
+		}
 	}
 	return
 }
